@@ -173,26 +173,27 @@ class Events(core.Scenario):
             # a message whose request had been received before the disconnect event fired may
             # still reach its handler afterwards (DESIGN S4); only later arrivals count
             bad_step = [s for n, s, t in self.inj if n == 'post_bad']
-            after = [e for e in after if not (e[0] == 'message' and e[2] == 'ok' and bad_step and bad_step[0] <= evA[i][4])]
+            after = [e for e in after if not (e[0] == 'message' and e[2] == 'ok' and bad_step and bad_step[0] < evA[i][4])]
             race_step = [s for n, s, t in self.inj if n in ('post_msg', 'frame_msg')]
-            after = [e for e in after if not (e[0] == 'message' and e[2] == 'racing' and race_step and race_step[0] <= evA[i][4])]
+            after = [e for e in after if not (e[0] == 'message' and e[2] == 'racing' and race_step and race_step[0] < evA[i][4])]
             if after:
                 self.flag('event_after_disconnect', 'events after the disconnect event: %r' % [e[:3] for e in after], trigger=trig)
             ev = evA[i]
             allowed = set()
+            # an injection made when n steps had completed precedes an event fired in step index e iff n < e
             for name, step, t in self.inj:
-                if step <= ev[4]:
+                if step < ev[4]:
                     allowed.update(REASONS[name])
             if ev[3] >= INTERVAL + TIMEOUT - 0.01:
                 allowed.update(TIMED)
             if ev[4] > getattr(self, 'suffix_step', 10 ** 9):
                 pass
-            if not self.inj or all(step > ev[4] for _, step, _ in self.inj):
+            if not self.inj or all(step >= ev[4] for _, step, _ in self.inj):
                 # ended by the suffix's own traffic / silence
                 allowed.update(TIMED + ['server disconnect'])
             if ev[2] not in allowed:
                 self.flag('wrong_reason', 'reason %r, causes delivered before the event: %r (allowed %r)'
-                          % (ev[2], [n for n, s, t in self.inj if s <= ev[4]], sorted(allowed)), trigger=trig)
+                          % (ev[2], [n for n, s, t in self.inj if s < ev[4]], sorted(allowed)), trigger=trig)
         msgs = [e for e in evA if e[0] == 'message']
         if [m[2] for m in msgs if m[2] == 'hello'] != ['hello']:
             self.flag('message_event_count', 'message events %r' % [m[2] for m in msgs], trigger=trig)
